@@ -2145,7 +2145,14 @@ func opcodeCheckMultiSig(op *ParsedOpcode, t *thread) error {
 	// Get script starting from the most recent bscript.OpCODESEPARATOR.
 	script := t.subScript()
 
+	// Remove the signatures since there is no way for a signature to sign
+	// itself, except for those using the fork id digest (see opcodeCheckSig).
 	for _, sigInfo := range signatures {
+		rawSig := sigInfo.signature
+		if t.hasFlag(scriptflag.EnableSighashForkID) && len(rawSig) > 0 &&
+			sighash.Flag(rawSig[len(rawSig)-1]).Has(sighash.ForkID) {
+			continue
+		}
 		script = script.removeOpcodeByData(sigInfo.signature)
 		script = script.removeOpcode(bscript.OpCODESEPARATOR)
 	}
